@@ -4,7 +4,7 @@ import json, os
 ROOT = os.path.dirname(os.path.dirname(os.path.abspath(__file__)))
 ALL = ["C%02d" % i for i in range(1, 21)]
 
-HOOK_COMMITS = ["c7257d0"]
+HOOK_COMMITS = ["c7257d0", "ee80bf6"]
 
 # id -> (category, text, design_ref, level_note, technique)
 CHECKS = {
@@ -210,7 +210,7 @@ ADDED = {
  "C15": "clear is part of the concurrent mix; the linearization must also explain the quiescent read-back; 60 000 (thorough 3 000 000) further histories are screened at quiescence; extreme saliences; FireOrder.tla listing order for up to 55 rules.",
  "C16": "The value domain has a float below machine epsilon and integer zero; the memo domain has multifield nodes and arrays differing in the sign of zero.",
  "C18": "Multi-entry export lists of mixed item types and import graphs over four modules are in the quick tier.",
- "C19": "One rule may carry a 250-level conjunction; half of the runs reuse one engine across two same-named, same-version knowledge bases; a dead harness process is a violation attributed to the case in flight.",
+ "C19": "One rule may carry a 250-level conjunction; half of the runs reuse one engine across two same-named, same-version knowledge bases; a dead harness process is a violation attributed to the case in flight; schedules observed through the worker-event hook are validated by TLC against ParallelExec.tla (Trace_ParallelExec.tla).",
  "C20": "Every operation sequence to depth 6 (thorough 7) over one key and four checkpoints.",
 }
 
